@@ -49,7 +49,7 @@ inductive Expr where
   -- ---- added for the LogQL metric planners (C08); additive
   | mulOp (a b : Expr)                      -- text `a * b` (e.g. `intDiv(ts, d) * d`)
   | divOp (a b : Expr)                      -- text `a / b` (e.g. `toFloat64(COUNT()) / 5.000000`)
-  | mapFilterKeys (keep : Bool) (keys : List Bytes) (m : Expr)  -- byWithoutFilterCol: `mapFilter((k,v) -> k [NOT ]IN ('a','b'), m)`
+  | mapFilterKeys (keep : Bool) (keys : List Bytes) (m : Expr)  -- byWithoutFilterCol: `mapFilter((k,v) -> k [NOT ]IN ('a','b'), m)`; `by ()`: `mapFilter((k,v) -> 0, m)`
   | mapAt (m : Expr) (key : Bytes)          -- `m['key']` (UnwrapPlanner)
   | tupleAt (name : String) (i : Nat)       -- `arr_b.2` (TopKPlanner)
   | topkSlice (isTop hasLabels : Bool) (k : Nat)  -- TopKPlanner: `arraySlice(arraySort([λ,]groupArray((par_a.value, par_a.fingerprint[, par_a.labels]))), 1, k)`
@@ -60,6 +60,8 @@ inductive Expr where
   | regexMap (labels : List Bytes) (re : Bytes) (id : Nat)  -- regexMap over column `string` (`re_lbls_<id>`, `re_vals_<id>`)
   | mapDrop (m : Expr) (ps : List (Bytes × Bytes))          -- mapDropFilter: `mapFilter((k,v) -> k!='a' and (k, v)!=('b', 'c'), m)`
   | labelsFp                                                -- `cityHash64(arraySort(arrayZip(mapKeys(labels),mapValues(labels))))` (ParserPlanner, PlannerDrop)
+  -- ---- added for QuantilePlanner (C08 ext); additive
+  | quantileAgg (units scale : Nat) (col : String)          -- `quantile(φ)(col)` with φ = units / 10^scale printed by `%f` (a parametric aggregate function)
 inductive Sel where
   | mk (withs : List (Alias × Sel)) (distinct : Bool) (cols : List Expr) (from_ : Option Expr)
        (joins : List (String × Alias × Expr)) (preWhere wher : Option Expr) (groupBy : List Expr)
@@ -141,6 +143,8 @@ def renderExpr : Expr → Bytes
   | .mulOp x y => renderExpr x ++ b " * " ++ renderExpr y
   | .divOp x y => renderExpr x ++ b " / " ++ renderExpr y
   | .mapFilterKeys keep keys m =>
+    if keep && keys.isEmpty then b "mapFilter((k,v) -> 0, " ++ renderExpr m ++ b ")"
+    else
     b "mapFilter((k,v) -> k " ++ b (if keep then "IN" else "NOT IN") ++ b " (" ++ joinB (b ",") (keys.map quote) ++ b "), " ++
       renderExpr m ++ b ")"
   | .mapAt m key => renderExpr m ++ b "[" ++ quote key ++ b "]"
@@ -156,6 +160,7 @@ def renderExpr : Expr → Bytes
   | .regexMap labels re id => regexMapText labels re id
   | .mapDrop m ps => b "mapFilter((k,v) -> " ++ joinB (b " and ") (ps.map dropClauseText) ++ b ", " ++ renderExpr m ++ b ")"
   | .labelsFp => b labelsFpText
+  | .quantileAgg units scale col => b "quantile(" ++ b (fixedText units scale) ++ b ")(" ++ b col ++ b ")"
 def renderExprs : List Expr → List Bytes
   | [] => []
   | o :: os => renderExpr o :: renderExprs os
